@@ -127,6 +127,28 @@ pub fn green_read_routes(g: &GreenNode) -> Option<String> {
             return Some(format!("next then nth_back({}) reads a wrong child", k));
         }
     }
+    // the element view of each child: kind and length through the enum's forwarders, the debug forms (never panic, name the kind)
+    let mut sum = 0u32;
+    for c in g.children() {
+        let (k, l) = match &c {
+            NodeOrToken::Node(n) => (n.kind(), n.text_len()),
+            NodeOrToken::Token(t) => (t.kind(), t.text_len()),
+        };
+        if c.kind() != k || c.text_len() != l {
+            return Some("the element view of a child reports another kind / length than the child".into());
+        }
+        sum += u32::from(l);
+        let dbg = match &c {
+            NodeOrToken::Node(n) => format!("{:?}", n),
+            NodeOrToken::Token(t) => format!("{:?}", t),
+        };
+        if !dbg.contains(&k.0.to_string()) {
+            return Some(format!("debug form of a green child of kind {} does not mention its kind: {}", k.0, dbg));
+        }
+    }
+    if sum != u32::from(g.text_len()) {
+        return Some(format!("text_len {:?} is not the sum {} of the children's lengths", g.text_len(), sum));
+    }
     for c in g.children() {
         if let NodeOrToken::Node(c) = c {
             if let Some(m) = green_read_routes(c) {
